@@ -349,3 +349,38 @@ def subpath_constraints(rng, g, max_c=2, contiguous_only=False):
     if out and rng.random() < 0.2:
         out.append([list(e) for e in out[0]])   # duplicated constraint
     return out
+
+
+def digraph_rich(rng, max_nodes=6, max_extra=6):
+    """Digraph with many cycles (nested, touching, self-loops, parallel exits); unit weights.
+    The first backbone node is a source and the last one a sink."""
+    n = rng.randint(3, max_nodes)
+    ns = names(rng, n)
+    L = rng.randint(3, n)
+    back = ns[:L]
+    order = [(a, b) for a, b in zip(back[:-1], back[1:])]
+    inner = back[1:-1] + ns[L:]
+    for x in ns[L:]:
+        # hang the extra node on a cycle through an inner node
+        a = rng.choice(back[1:-1])
+        order.append((a, x))
+        order.append((x, rng.choice(back[1:-1])))
+    for _ in range(rng.randint(1, max_extra)):
+        a = rng.choice(inner)
+        b = rng.choice(inner)
+        if (a, b) not in order:
+            order.append((a, b))
+    if rng.random() < 0.3 and len(back) > 3:
+        e = (back[0], back[2])
+        if e not in order:
+            order.append(e)
+    if rng.random() < 0.3 and len(back) > 3:
+        e = (back[-3], back[-1])
+        if e not in order:
+            order.append(e)
+    nodes = []
+    for u, v in order:
+        for x in (u, v):
+            if x not in nodes:
+                nodes.append(x)
+    return {"kind": "digraph", "nodes": nodes, "edges": [[u, v, 1] for u, v in order], "routes": None, "weights": None}
